@@ -503,6 +503,9 @@ func (tx *Transaction) ParseRequestReader(data io.Reader) (*types.Interruption, 
 		v := strings.Trim(val, " ")
 		tx.AddRequestHeader(k, v)
 	}
+	if err := scanner.Err(); err != nil {
+		return nil, fmt.Errorf("cannot read the request: %s", err.Error())
+	}
 	if it := tx.ProcessRequestHeaders(); it != nil {
 		return it, nil
 	}
@@ -532,6 +535,11 @@ func (tx *Transaction) ParseRequestReader(data io.Reader) (*types.Interruption, 
 				return it, nil
 			}
 		}
+	}
+	// the scanner gives up on a line longer than its buffer (or on a failing reader): the rest of
+	// the body has not been seen, which must not look like an inspected request
+	if err := scanner.Err(); err != nil {
+		return nil, fmt.Errorf("cannot read the request body: %s", err.Error())
 	}
 	return tx.ProcessRequestBody()
 }
